@@ -49,7 +49,8 @@ def masked_tree(text, adjusted, props):
         out = []
         last_color = None
         for i, d in enumerate(ds):
-            if d[0] == "decl" and d[1].lower() == "color":
+            # the declaration that wins the cascade inside the rule: the last !important one, else the last one
+            if d[0] == "decl" and d[1].lower() == "color" and (last_color is None or d[3] or not ds[last_color][3]):
                 last_color = i
         for i, d in enumerate(ds):
             if d[0] == "decl" and ((sel in adjusted and i == last_color) or (sel in ROOT_KEYS and d[1] in props)):
@@ -386,7 +387,7 @@ def jobs(ctx):
             if k in ("root_literal", "html_literal") and wname != "none":
                 continue
             out.append(([(k, wname)], [], S2 if q else O.SETTINGS))
-    for a, b in itertools.product(K, repeat=2):
+    for a, b in (G.quick_pairs(K) if q else itertools.product(K, repeat=2)):
         if a == b and a in ("root_literal", "html_literal"):
             continue
         out.append(([(a, "none"), (b, "none")], [], S1))
